@@ -47,13 +47,18 @@ Verdict evalAccepted(Ctx& c, const Gamma& G, const std::string& text, rl::Syntax
   return pbt::pass();
 }
 
-Verdict soundWith(Ctx& c, bool scoping) {
+Verdict soundWith(Ctx& c, bool scoping, bool templates = false) {
   TypedGen g(c);
   g.optReuseNames = scoping;  // binders re-declare names of ended scopes at any depth
+  g.optRichTemplates = templates;
   g.makeContext();
-  const int rootKind = c.ipick(0, 9);
-  const Ty target = rootKind < 4 ? Ty::Logic() : rootKind < 8 ? Ty::Set(g.randType(2)) : g.randType(2);
-  EP e = target.k == Ty::LOGIC ? g.genLogic(c.ipick(1, 3)) : g.genTerm(target, c.ipick(1, 3));
+  EP e;
+  if (templates) e = g.makeCall(c.oneof(g.G.funcs), {}, c.ipick(1, 3));
+  else {
+    const int rootKind = c.ipick(0, 9);
+    const Ty target = rootKind < 4 ? Ty::Logic() : rootKind < 8 ? Ty::Set(g.randType(2)) : g.randType(2);
+    e = target.k == Ty::LOGIC ? g.genLogic(c.ipick(1, 3)) : g.genTerm(target, c.ipick(1, 3));
+  }
   std::string opName;
   const bool doMutate = c.chance(3, 4);
   if (doMutate) { e = mutate(c, e, g.G, opName, scoping && c.chance(2, 3) ? 5 : -1); if (c.chance(1, 4)) { std::string op2; e = mutate(c, e, g.G, op2); if (!op2.empty()) opName += "+" + op2; } }
@@ -106,6 +111,7 @@ Verdict soundWith(Ctx& c, bool scoping) {
 // variable uses are swapped.  Whatever the checker still accepts must evaluate safely to the reported type.
 Verdict soundProp(Ctx& c) { return soundWith(c, false); }
 Verdict soundScopingProp(Ctx& c) { return soundWith(c, true); }
+Verdict soundTemplateProp(Ctx& c) { return soundWith(c, false, true); }
 
 Verdict binderProp(Ctx& c) {
   TypedGen g(c);
@@ -161,6 +167,7 @@ int main(int argc, char** argv) {
   std::vector<pbt::Prop> props;
   props.push_back({"accepted_evaluates_safely", soundProp, 2000, 14000, false, false, "generated expressions and near-miss mutants; accepted ones evaluated under 2-3 data contexts"});
   props.push_back({"accepted_with_name_reuse", soundScopingProp, 800, 6000, false, false, "the same with binders re-declaring names of ended scopes (any depth) and one occurrence of a local renamed to another local of the tree; accepted ones evaluated"});
+  props.push_back({"template_calls", soundTemplateProp, 800, 6000, false, false, "calls of functions whose parameter types are tuples / sets of tuples / nested sets over shared radicals, three quarters mutated; accepted ones evaluated"});
   props.push_back({"binder_confusion", binderProp, 1000, 8000, false, false, "binders of every pattern form over sets of tuples; variable uses swapped; accepted ones evaluated"});
   return pbt::main(argc, argv, "C02", props);
 }
